@@ -422,6 +422,8 @@ def run(S):
     rule_own(S)
     rule_swap(S)
     rule_disp(S)
+    from checks.C15 import rule_fslot
+    rule_fslot(S)
     rule_drain(S)
     rule_destroy(S)
     rule_root(S)
